@@ -133,6 +133,19 @@ def from_ast(a):
     raise Unsupported(op)
 
 
+def from_ast_head(a):
+    """operator token of a non-leaf claripy AST node"""
+    if a.op == "Extract":
+        return "extract:%d:%d" % (a.args[0], a.args[1])
+    if a.op == "ZeroExt":
+        return "zext:%d" % a.args[0]
+    if a.op == "SignExt":
+        return "sext:%d" % a.args[0]
+    if a.op in CLARIPY_OP:
+        return CLARIPY_OP[a.op]
+    raise Unsupported(a.op)
+
+
 def is_bool(t):
     k = t[0]
     if k == "ite":
